@@ -89,8 +89,8 @@ PROPS["C02"] = {
          "supporting": [(O + "get_password_derived_key", "*"), (O + "unmask_response", "*"), (E + "Envelope::open", "rfc"), (E + "Envelope::open_raw", "*"), (E + "recover_keys_internal", "*"), (O + "bytestrings_from_identifiers", "*"), (E + "construct_aad", "*"), (E + "Envelope::deserialize", "*"), (K + "PublicKey::deserialize", "*"), (O + "blind", "*")],
          "theorems": ["lemma_c02_rp_differs", "thm_c02_reject_env", "thm_c02_real_env", "lemma_frame_split"]},
         {"name": "server-mac-gate",
-         "clauses": [(O + "ClientLogin::finish", "rp"), (O + "ClientLogin::finish", "sound_mac"), (O + "ClientLogin::finish", "errkind"), (O + "ClientLogin::finish", "reflect"), (T + "TripleDh::generate_ke3", "sound"), (T + "TripleDh::generate_ke3", "errkind"), (T + "TripleDh::generate_ke3", "ctx_err")],
-         "supporting": [(O + "get_password_derived_key", "*"), (O + "unmask_response", "*"), (E + "recover_keys_internal", "*"), (T + "TripleDh::generate_ke3", "*"), (T + "derive_3dh_keys", "*"), (T + "hkdf_expand_label_extracted", "*"), (T + "hkdf_expand_label", "*"), (T + "derive_secrets", "*"), (O + "blind", "*")],
+         "clauses": [(O + "ClientLogin::finish", "rp"), (O + "ClientLogin::finish", "sound_mac"), (O + "ClientLogin::finish", "errkind"), (O + "ClientLogin::finish", "reflect"), (T + "TripleDh::generate_ke3", "sound"), (T + "TripleDh::generate_ke3", "errkind")],
+         "supporting": [(T + "TripleDh::generate_ke3", "ctx_err"), (O + "get_password_derived_key", "*"), (O + "unmask_response", "*"), (E + "recover_keys_internal", "*"), (T + "TripleDh::generate_ke3", "*"), (T + "derive_3dh_keys", "*"), (T + "hkdf_expand_label_extracted", "*"), (T + "hkdf_expand_label", "*"), (T + "derive_secrets", "*"), (O + "blind", "*")],
          "theorems": ["lemma_c02_rp_differs", "thm_c02_reject_mac", "thm_c02_real_mac", "lemma_frame_split"]},
     ],
     "witness": "c02",
@@ -115,10 +115,10 @@ PROPS["C03"] = {
 PROPS["C04"] = {
     "alternatives": [{
         "name": "server-mac-over-transcript",
-        "clauses": [(O + "ClientLogin::finish", "reflect"), (O + "ClientLogin::finish", "sound_mac"), (O + "ClientLogin::finish", "errkind"), (O + "ClientLogin::finish", "rp"), (T + "TripleDh::generate_ke3", "sound"), (T + "TripleDh::generate_ke3", "errkind"), (T + "TripleDh::generate_ke3", "ctx_err"), (M + "CredentialResponse::deserialize", "*"), (M + "CredentialResponse::serialize_without_ke", "*"), (M + "CredentialRequest::serialize_iter", "*"), (T + "Ke2Message::to_bytes_without_mac", "*"), (T + "Ke1Message::serialize", "*"), (O + "MaskedResponse::iter", "*"), (T + "Ke2Message::deserialize", "*"), (O + "MaskedResponse::deserialize", "*")],
-         "supporting": [(T + "TripleDh::generate_ke3", "*"), (T + "derive_3dh_keys", "*"), (T + "hkdf_expand_label_extracted", "*"), (T + "hkdf_expand_label", "*"), (T + "derive_secrets", "*")],
+        "clauses": [(O + "ClientLogin::finish", "reflect"), (O + "ClientLogin::finish", "sound_mac"), (O + "ClientLogin::finish", "errkind"), (O + "ClientLogin::finish", "rp"), (T + "TripleDh::generate_ke3", "sound"), (T + "TripleDh::generate_ke3", "errkind"), (M + "CredentialResponse::deserialize", "*"), (M + "CredentialResponse::serialize_without_ke", "*"), (M + "CredentialRequest::serialize_iter", "*"), (T + "Ke2Message::to_bytes_without_mac", "*"), (T + "Ke1Message::serialize", "*"), (O + "MaskedResponse::iter", "*"), (T + "Ke2Message::deserialize", "*"), (O + "MaskedResponse::deserialize", "*")],
+         "supporting": [(T + "TripleDh::generate_ke3", "ctx_err"), (T + "TripleDh::generate_ke3", "*"), (T + "derive_3dh_keys", "*"), (T + "hkdf_expand_label_extracted", "*"), (T + "hkdf_expand_label", "*"), (T + "derive_secrets", "*")],
          "theorems": ["thm_c04_mac_only", "thm_c04_fields", "thm_transcript_agreement", "lemma_preamble_injective", "lemma_frame_split", "lemma_fixed_split"],
-        "kani": {"quick": [("api", "x25519_pk_decode_identity")], "thorough": []},
+        "kani": {"quick": [("api", "x25519_pk_canonical")], "thorough": []},
         "replay": ["c04"],
     }],
     "witness": "c04",
@@ -279,8 +279,9 @@ PROPS["C10"] = {
         "clauses": star(DECODERS + ENCODERS + [ER + "check_slice_size", ER + "check_slice_size_atleast", O + "MaskedResponse::deserialize", O + "MaskedResponse::serialize",
                                                GE + "deserialize_pk", GE + "deserialize_sk", GE + "serialize_pk", GE + "serialize_sk", K + "KeyPair::from_private_key_slice"]),
         "theorems": C10_THMS + ["thm_c13_server_registration", "thm_c13_client_registration", "thm_c13_client_login", "thm_c13_server_setup", "thm_c03_reload"],
-        "kani": {"quick": [("leaf", "check_slice_size_exact"), ("api", "x25519_sk_decode"), ("api", "x25519_pk_decode_identity"), ("api", "ristretto_sk_decode")],
-                 "thorough": [("api", "x25519_sk_decode_length"), ("api", "ristretto_decode_length")]},
+        "kani": {"quick": [("leaf", "check_slice_size_exact"), ("api", "x25519_sk_decode"), ("api", "x25519_pk_canonical"), ("api", "ristretto_sk_decode"),
+                           ("api", "x25519_sk_decode_length"), ("api", "ristretto_decode_length")],
+                 "thorough": []},
         "replay": ["c10"],
     }],
     "witness": "c10",
@@ -295,8 +296,8 @@ PROPS["C11"] = {
                                      (K + "PrivateKey::deserialize[serde]", "*"), (K + "PublicKey::deserialize[serde]", "*"), (M + "deserialize_blinded_element", "*"), (M + "deserialize_evaluation_element", "*"),
                                      (GE + "deserialize_pk", "valid"), (GE + "deserialize_sk", "valid"), (GE + "deserialize_sk", "nonzero"), (GE + "hash_to_scalar", "*"), (GE + "is_zero_scalar", "*")],
         "exclude": {"strict"},
-        "kani": {"quick": [("api", "x25519_pk_no_small_order"), ("api", "x25519_sk_decode"), ("api", "ristretto_sk_decode"), ("api", "ristretto_pk_decode_rejects_identity")],
-                 "thorough": [("api", "x25519_pk_decode_identity"), ("api", "ristretto_decode_length"), ("api", "x25519_sk_decode_length")]},
+        "kani": {"quick": [("api", "x25519_pk_no_small_order"), ("api", "x25519_sk_nonzero"), ("api", "ristretto_sk_valid"), ("api", "ristretto_pk_decode_rejects_identity")],
+                 "thorough": [("api", "x25519_pk_decode_identity"), ("api", "x25519_sk_decode"), ("api", "ristretto_sk_decode"), ("api", "ristretto_decode_length"), ("api", "x25519_sk_decode_length")]},
         "replay": ["c11"],
     }],
     "witness": "c11",
